@@ -185,9 +185,6 @@ fn c06_int_sums_1d_i32() {
     let (a, w) = (dv.view(), wv.view());
     assert!(SummaryStatisticsExt::mean(&a) == Ok(s / 4));
     assert!(a.weighted_sum(&w) == Ok(ws));
-    if wsum != 0 {
-        assert!(a.weighted_mean(&w) == Ok(ws / wsum));
-    }
     kani::cover!(pd[1] == -100 && pw[2] == -100, "W: negative data and weight");
 }
 
@@ -224,7 +221,7 @@ fn c06_axis_equals_lane_f32() {
 
 /// f32 / small-integer payloads: every partial sum is exact in any association order, so the
 /// result must equal the exact value (pairing and normaliser for the float instantiation).
-//@ prop=C06,C20:thorough tier=quick mem=6 timeout=3000 inst="ArrayView2<f32> 2x2, data stepped, weights F-order" bounds="payloads integers in -8..=7; unwind 8" cbmc="--unwindset memcmp.0:33"
+//@ prop=C06,C20 tier=thorough mem=6 timeout=3600 inst="ArrayView2<f32> 2x2, data stepped, weights F-order" bounds="payloads integers in -8..=7; unwind 8" cbmc="--unwindset memcmp.0:33"
 #[kani::proof]
 #[kani::unwind(8)]
 fn c06_small_f32_2x2() {
